@@ -529,7 +529,8 @@ fn pow_ok(a: &Val, b: &Val) -> bool {
     match (a, b) {
         (Val::Int(_) | Val::Rat(_), Val::Int(e)) => {
             let m = e.abs();
-            m <= BigInt::from(300) && (is_unit_or_zero(a) || bits_of(a) * m.to_u64().unwrap_or(0) <= 60_000)
+            // the bases 0, 1, -1 (int or rational) are cheap for exponents of any size
+            is_unit_or_zero(a) || (m <= BigInt::from(300) && bits_of(a) * m.to_u64().unwrap_or(0) <= 60_000)
         }
         _ => true,
     }
@@ -665,23 +666,75 @@ struct Case {
     src: String,
     req: String,
     nontrivial: bool,
+    share: &'static str,
 }
 
-fn mk_bin(op: &str, a: &VO, b: &VO, rng: &mut Rng) -> Case {
-    let src = format!("({}) {} ({})", a.src(rng), op, b.src(rng));
+/// who else holds the operands when the operator runs (the result must not depend on it)
+const SHARE_MODES: &[&str] = &[
+    "inline", "var-lit", "lit-var", "var-var", "temp-lit", "var-temp", "temp-temp", "list-elems", "var-lit-kept",
+];
+static NAME_COUNTER: std::sync::atomic::AtomicU64 = std::sync::atomic::AtomicU64::new(0);
+fn fresh() -> u64 {
+    NAME_COUNTER.fetch_add(1, std::sync::atomic::Ordering::Relaxed)
+}
+/// a fresh temporary with the same value: the result of another (vectorised) operation
+fn temp(src: &str) -> String {
+    format!("(-(-({})))", src)
+}
+fn bin_src(op: &str, sa: &str, sb: &str, mode: &str) -> String {
+    let n = fresh();
+    match mode {
+        "var-lit" => format!("qa{n} := {sa}; qa{n} {op} ({sb})"),
+        "lit-var" => format!("qb{n} := {sb}; ({sa}) {op} qb{n}"),
+        "var-var" => format!("qa{n} := {sa}; qb{n} := {sb}; qa{n} {op} qb{n}"),
+        "temp-lit" => format!("{} {op} ({sb})", temp(sa)),
+        "var-temp" => format!("qa{n} := {sa}; qa{n} {op} {}", temp(sb)),
+        "temp-temp" => format!("{} {op} {}", temp(sa), temp(sb)),
+        "list-elems" => format!("ql{n} := [{sa}, {sb}]; ql{n}[0] {op} ql{n}[1]"),
+        // a second holder that is still alive AFTER the operation (a copy made before it)
+        "var-lit-kept" => format!("qa{n} := {sa}; qk{n} := qa{n}; qr{n} := qa{n} {op} ({sb}); qr{n}"),
+        _ => format!("({sa}) {op} ({sb})"),
+    }
+}
+fn mk_bin_mode(op: &str, a: &VO, b: &VO, mode: &'static str, rng: &mut Rng) -> Case {
+    let src = bin_src(op, &a.src(rng), &b.src(rng), mode);
     let trivial = matches!((a, b), (VO::Num(Val::Int(x)), VO::Num(Val::Int(y))) if x.bits() < 31 && y.bits() < 31);
     Case {
         key: format!("{}({},{})", op, a.kind(), b.kind()),
         src,
         req: format!("bin {} {} {}", op, a.tok(), b.tok()),
         nontrivial: !trivial,
+        share: mode,
+    }
+}
+fn mk_bin(op: &str, a: &VO, b: &VO, rng: &mut Rng) -> Case {
+    // half of all cases spell both operands inline, the rest picks a sharing configuration
+    let mode = if rng.chance(1, 2) { "inline" } else { *rng.pick(SHARE_MODES) };
+    mk_bin_mode(op, a, b, mode, rng)
+}
+/// the same variable on both sides
+fn mk_bin_same(op: &str, a: &VO, rng: &mut Rng) -> Case {
+    let n = fresh();
+    let src = format!("qa{n} := {}; qa{n} {op} qa{n}", a.src(rng));
+    Case {
+        key: format!("{}({},{})", op, a.kind(), a.kind()),
+        src,
+        req: format!("bin {} {} {}", op, a.tok(), a.tok()),
+        nontrivial: true,
+        share: "same-var",
     }
 }
 fn mk_un(op: &str, a: &VO, rng: &mut Rng) -> Case {
     let s = a.src(rng);
-    let src = match op {
-        "neg" => format!("-({})", s),
-        f => format!("{}({})", f, s),
+    let call = |arg: &str| match op {
+        "neg" => format!("-({})", arg),
+        f => format!("{}({})", f, arg),
+    };
+    let n = fresh();
+    let (src, share) = match rng.below(6) {
+        0 => (format!("qa{n} := {s}; {}", call(&format!("qa{n}"))), "var"),
+        1 => (call(&temp(&s)), "temp"),
+        _ => (call(&s), "inline"),
     };
     let trivial = matches!(a, VO::Num(Val::Int(x)) if x.bits() < 31);
     Case {
@@ -689,6 +742,7 @@ fn mk_un(op: &str, a: &VO, rng: &mut Rng) -> Case {
         src,
         req: format!("un {} {}", op, a.tok()),
         nontrivial: !trivial,
+        share,
     }
 }
 
@@ -703,7 +757,10 @@ fn main() {
                 ways (literal, ^1, unreduced n*k/d*k, negative denominator, rational(n), bits_to_float, \
                 mkc) x operators + - * / % // %% ^ and neg floor ceil round int rational float \
                 numerator denominator x shapes (scalar, vectors of length 0-4 of mixed levels, \
-                mismatched lengths, non-numbers) + a stream of float pairs at the IEEE rounding boundaries for + - * / (exact \
+                mismatched lengths, non-numbers) x sharing configurations of the operands (inline, bound to variables, \
+                fresh temporaries, list elements, the same variable twice, a copy kept alive) + `^` with \
+                exponents at the 2^15/16/31/32/63/64 boundaries for the cheap bases 0, 1, -1 (int and \
+                rational), floats and complex numbers, also in vectors + a stream of float pairs at the IEEE rounding boundaries for + - * / (exact \
                 ties and near-ties, binade carries, cancellation, subnormal results, underflow, the \
                 overflow threshold, signed zeros, infinities, NaN); a case is non-trivial unless both operands are ints \
                 below 2^31; distinct = distinct source texts"
@@ -831,6 +888,86 @@ fn main() {
         let (a, _) = float_pair(&mut rng, &pools);
         cases.push(mk_un("neg", &VO::Num(Val::Float(a)), &mut rng));
     }
+    // 3c. `^` with exponents at the i16 / i32 / u32 / i64 / u64 boundaries, for the bases whose power
+    //     is cheap at every level (0, 1, -1 as int and as rational; a few floats and complex numbers)
+    {
+        let mut exps: Vec<BigInt> = vec![];
+        for k in [15u32, 16, 31, 32, 63, 64] {
+            for d in -2i64..=2 {
+                exps.push(pow2(k) + BigInt::from(d));
+                exps.push(-(pow2(k) + BigInt::from(d)));
+            }
+        }
+        for e in ["3000000000", "2500000000", "4000000000", "-3000000000", "6442450944", "1000000000000"] {
+            exps.push(e.parse().unwrap());
+        }
+        let mut bases: Vec<Val> = vec![];
+        for k in [0i64, 1, -1] {
+            bases.push(Val::Int(BigInt::from(k)));
+            bases.push(Val::Rat(q(BigInt::from(k), BigInt::one())));
+        }
+        for f in [0.0f64, -0.0, 1.0, -1.0, 2.0, 0.5, -2.0, 1.0000000000000002, f64::INFINITY, f64::NAN] {
+            bases.push(Val::Float(f.to_bits()));
+        }
+        for (re, im) in [(1.0f64, 0.0f64), (0.0, 1.0), (0.0, 0.0), (-1.0, 0.0)] {
+            bases.push(Val::Complex(re.to_bits(), im.to_bits()));
+        }
+        let reps = if args.tier == "thorough" { 3 } else { 1 };
+        for _ in 0..reps {
+            for b in &bases {
+                for e in &exps {
+                    cases.push(mk_bin("^", &VO::Num(b.clone()), &VO::Num(Val::Int(e.clone())), &mut rng));
+                }
+            }
+        }
+        for _ in 0..(400 * reps) {
+            // vectors of cheap bases / of boundary exponents
+            let nb = 1 + rng.below(4) as usize;
+            let vb: Vec<Val> = (0..nb).map(|_| rng.pick(&bases).clone()).collect();
+            let ve: Vec<Val> = (0..nb).map(|_| Val::Int(rng.pick(&exps).clone())).collect();
+            match rng.below(3) {
+                0 => cases.push(mk_bin("^", &VO::Vec(vb), &VO::Num(Val::Int(rng.pick(&exps).clone())), &mut rng)),
+                1 => cases.push(mk_bin("^", &VO::Num(rng.pick(&bases).clone()), &VO::Vec(ve), &mut rng)),
+                _ => cases.push(mk_bin("^", &VO::Vec(vb), &VO::Vec(ve), &mut rng)),
+            }
+        }
+    }
+    // 3d. every operator in every sharing configuration (who else holds the operands must not
+    //     matter): vector/vector, vector/scalar, scalar/vector with values on which the
+    //     non-commutative operators tell the operand order apart
+    {
+        let reps = if args.tier == "thorough" { 12 } else { 3 };
+        for _ in 0..reps {
+            for op in BIN_OPS {
+                for mode in SHARE_MODES.iter().copied().chain(std::iter::once("same-var")) {
+                    let n = 1 + rng.below(4) as usize;
+                    let small = |rng: &mut Rng| -> Val {
+                        match rng.below(4) {
+                            0 => Val::Int(BigInt::from(rng.range(2, 40))),
+                            1 => Val::Rat(q(BigInt::from(rng.range(-30, 30)), BigInt::from(rng.range(2, 9)))),
+                            2 => Val::Float((rng.range(3, 60) as f64 / 4.0).to_bits()),
+                            _ => Val::Int(BigInt::from(-rng.range(2, 9))),
+                        }
+                    };
+                    let va: Vec<Val> = (0..n).map(|_| small(&mut rng)).collect();
+                    let vb: Vec<Val> = (0..n).map(|_| Val::Int(BigInt::from(rng.range(1, 5)))).collect();
+                    let shapes: Vec<(VO, VO)> = vec![
+                        (VO::Vec(va.clone()), VO::Vec(vb.clone())),
+                        (VO::Vec(va.clone()), VO::Num(vb[0].clone())),
+                        (VO::Num(va[0].clone()), VO::Vec(vb.clone())),
+                        (VO::Num(va[0].clone()), VO::Num(vb[0].clone())),
+                    ];
+                    for (a, b) in shapes {
+                        if mode == "same-var" {
+                            cases.push(mk_bin_same(op, &a, &mut rng));
+                        } else {
+                            cases.push(mk_bin_mode(op, &a, &b, mode, &mut rng));
+                        }
+                    }
+                }
+            }
+        }
+    }
     // 4. random objects (scalars, vectors, junk)
     while cases.len() < n_cases {
         if rng.chance(1, 4) {
@@ -845,7 +982,10 @@ fn main() {
                 // equal lengths more often than chance gives
                 b = VO::Vec((0..x.len()).map(|_| pools.num(&mut rng)).collect());
             }
-            if op == "^" && !pow_ok_obj(&a, &b) {
+            // with a vector involved the power must stay cheap in BOTH operand orders, so that a
+            // wrapper that mixes the operands up yields a wrong value, not a run that never ends
+            let has_vec = matches!(a, VO::Vec(_)) || matches!(b, VO::Vec(_));
+            if op == "^" && (!pow_ok_obj(&a, &b) || (has_vec && !pow_ok_obj(&b, &a))) {
                 continue;
             }
             cases.push(mk_bin(op, &a, &b, &mut rng));
@@ -858,6 +998,7 @@ fn main() {
         let out = interp.eval(&c.src);
         rep.case(&c.src, c.nontrivial);
         rep.arm(&c.key);
+        rep.arm(&format!("sharing: {}", c.share));
         rep.outcome(match &out {
             Outcome::Ok(_) => "ok",
             Outcome::Throw(_) => "throw",
